@@ -2,6 +2,8 @@ import PilotaModel.Props.C01
 import PilotaModel.Lemmas.ReadTotalCompact
 import PilotaModel.Lemmas.SkipPrims
 import PilotaModel.Lemmas.IterSkip
+import PilotaModel.Lemmas.SkipExt
+import PilotaModel.Props.C07
 /-
   C09 — Safe Thrift decoders are total: arbitrary bytes give a value or an error.
   This file covers the runtime in-memory readers (the dynamic reading interpreter over the binary,
@@ -163,6 +165,60 @@ theorem compact_prefix_rejected (v : TVal) (hw : v.wt = true) (ws : Compact.CW) 
     simp at h4
     exact hq h4.2.2.2
   · exact h3
+
+/-- a successful skip does not depend on the bytes that follow those it consumed. -/
+theorem skip_extends (e : Endian) (d : Int) (t : TType) (p q : Bytes) (k : Nat) (r : Bytes)
+    (h : Skip.skip e d t p = .ok (k, r)) : Skip.skip e d t (p ++ q) = .ok (k, r ++ q) := by
+  unfold Skip.skip at h ⊢
+  exact (Skip.skipVal_ext e q _).1 d t p k r _ (by simp; omega) h
+
+/-- Binary / LE skipper: a strict prefix of a valid encoding is rejected too (with any budget). -/
+theorem skip_prefix_rejected (e : Endian) (v : TVal) (hw : v.wt = true) (d : Int) (hd : 0 ≤ d) (p q : Bytes) (hq : q ≠ [])
+    (h : Binary.run e v.ops = p ++ q) : ∃ k, Skip.skip e d v.ttype p = .err k := by
+  rcases skip_count_or_error e d hd v.ttype p with ⟨k, r', h1⟩ | h1
+  · exfalso
+    have h2 := skip_extends e d v.ttype p q k r' h1
+    have h3 := C01.binary_roundtrip e v hw []
+    rw [List.append_nil, h] at h3
+    have h4 := C07.skip_consumes_what_read_consumes e v.ttype (p ++ q) v [] d hd h3
+    rw [h4] at h2
+    split at h2
+    · simp at h2; exact hq h2.2.2
+    · simp at h2
+  · exact h1
+
+/-- Compact skipper, from any reader state without a pending bool. -/
+theorem compact_skip_prefix_rejected (v : TVal) (hw : v.wt = true) (ws : Compact.CW) (hp : ws.pending = none) (d : Int) (hd : 0 ≤ d) :
+    ∃ bs, Compact.run ws v.ops = .ok (ws, bs) ∧
+      ∀ (rs : Compact.CR), rs.pendingBool = none → ∀ p q : Bytes, q ≠ [] → bs = p ++ q →
+        ∃ k, Skip.cskip d v.ttype rs p = .err k := by
+  obtain ⟨bs, h1, h2⟩ := C01.compact_roundtrip v hw ws hp
+  refine ⟨bs, h1, fun rs hr p q hq hb => ?_⟩
+  cases hc : Skip.cskip d v.ttype rs p with
+  | err k => exact ⟨k, rfl⟩
+  | panic m => exact absurd hc (compact_skip_total _ d hd v.ttype rs p m)
+  | fuel => exact absurd hc (compact_skip_no_fuel d v.ttype rs p)
+  | ok x =>
+    exfalso
+    obtain ⟨k, s', r'⟩ := x
+    -- the underlying read-and-discard run on `p` succeeded; extend it to `p ++ q`
+    unfold Skip.cskip Skip.cskipVal at hc
+    cases hrd : Skip.rdSkip Skip.compactPrims (3 * p.length + 3) d v.ttype rs p with
+    | ok y =>
+      obtain ⟨s1, r1⟩ := y
+      have hext := (Skip.rdSkip_ext _ Skip.compactPrims_ext q _).1 d v.ttype rs p s1 r1 (3 * (p ++ q).length + 3) (by simp; omega) hrd
+      have h5 := h2 rs hr []
+      rw [List.append_nil, hb] at h5
+      unfold Compact.read at h5
+      have h6 := (Skip.rdSkip_of_read _ Skip.compactPrims_like (3 * (p ++ q).length + 3)).1 d v.ttype rs (p ++ q) hd
+      rw [h5, hext] at h6
+      simp only [Skip.specC] at h6
+      split at h6
+      · simp at h6; exact hq h6.2.2
+      · simp at h6
+    | err k => simp [hrd] at hc
+    | panic m => simp [hrd] at hc
+    | fuel => simp [hrd] at hc
 
 /-! ### non-vacuity -/
 example : (TVal.struct (.cons 1 (.list .i32 (.cons (.i32 5) .nil)) (.cons 2 (.bool true) .nil))).wt = true := by decide
